@@ -1,10 +1,13 @@
 package main
 
 import (
+	"encoding/json"
 	"fmt"
 	"math"
+	"strconv"
 
 	"github.com/my-cloud/ruthenium/validatornode/domain/ledger"
+	"github.com/my-cloud/ruthenium/validatornode/infrastructure/configuration"
 )
 
 // C09: Utxo.Value at lattice and random points. Each point is later enclosed rigorously by
@@ -25,9 +28,29 @@ var decaySets = []decaySet{
 	{600000000000, 3, 4},
 }
 
+// configuredHalfLife: the half-life as the node gets it, through the real decoder of the protocol
+// settings from a halfLifeInDays number (373.59 in validatornode/settings.json)
+func configuredHalfLife(h int64) float64 {
+	days := float64(h) / 8.64e13
+	js := fmt.Sprintf(`{"blocksCountLimit":1440,"coinDigitsCount":8,"genesisAmount":1,"halfLifeInDays":%s,"incomeBase":1,"incomeLimit":2,"minimalTransactionFee":1,"validationIntervalInSeconds":1,"validationTimeoutInSeconds":1,"verificationsCountPerValidation":1}`,
+		strconv.FormatFloat(days, 'g', -1, 64))
+	var ps configuration.ProtocolSettings
+	if err := json.Unmarshal([]byte(js), &ps); err != nil {
+		panic(err)
+	}
+	return ps.HalfLifeInNanoseconds()
+}
+
+var halfLifeMemo = map[int64]float64{}
+
 func valueOf(y uint64, yielding bool, x int64, s decaySet) uint64 {
 	u := ledger.NewUtxo(ledger.NewInputInfo(0, "x"), ledger.NewOutput("a", yielding, y), 0)
-	return u.Value(x, float64(s.h), s.B, s.L)
+	hf, ok := halfLifeMemo[s.h]
+	if !ok {
+		hf = configuredHalfLife(s.h)
+		halfLifeMemo[s.h] = hf
+	}
+	return u.Value(x, hf, s.B, s.L)
 }
 
 func slackOf(y uint64, s decaySet) uint64 {
@@ -90,6 +113,9 @@ func runDecaySuite(seed uint64, n int, out *Out, stats *Stats) {
 			x = 1
 		}
 		v := valueOf(y, yielding, x, s)
+		if hf := halfLifeMemo[s.h]; math.Abs(hf-float64(s.h)) > float64(s.h)*1e-12 {
+			out.Violation("C09", id, fmt.Sprintf("half-life-config\ta half-life of %d ns configured as %v days reaches the node as %v ns", s.h, float64(s.h)/8.64e13, hf))
+		}
 		out.Case(sx("decaycase", id, b01(yielding), u64(y), i64(x), i64(s.h), u64(s.B), u64(s.L), u64(v), u64(slackOf(y, s))))
 		stats.Count(fmt.Sprintf("decay/yielding=%v/y=%s/x=%s", yielding, ykind, xkind))
 		stats.Mark(fmt.Sprintf("%v/%s/%s/%d", yielding, ykind, xkind, s.h))
